@@ -104,7 +104,8 @@ WITNESSES = ("prefix_named_outside_target", "prefix_named_outside_target_raises"
              "changed_reference_breaks_itemspace_of_enclosing_space",
              "derived_mode_stale_after_definer_switch",
              "child_reference_stale_after_parent_base_removed",
-             "child_reference_stale_after_base_deleted")
+             "child_reference_stale_after_base_deleted",
+             "nested_deriver_named_like_its_base")
 
 
 def run_witness(case):
